@@ -1,5 +1,5 @@
 (* Correspondence glue for C19 (bencode codec). *)
-From Chihaya Require Export Glue.Pack Model.Bencode.
+From Chihaya Require Export Glue.Pack Glue.FastPack Model.Bencode.
 Open Scope Z_scope.
 
 (* what the implementation's decoder did *)
